@@ -167,16 +167,20 @@ Definition j_append (e : jentry) (j : jstate) : jstate :=
   | None => j1
   end.
 
-(* journal.stashBalance / stashNonce / stashCode *)
-Definition stash_bal (a : addr) (prev : word) (j : jstate) : jstate :=
-  let m := mstate_for a j in
-  j <| j_muts ::= <[a := match s_bal m with Some _ => m | None => m <| s_bal := Some prev |> end]> |>.
-Definition stash_nonce (a : addr) (prev : N) (j : jstate) : jstate :=
-  let m := mstate_for a j in
-  j <| j_muts ::= <[a := match s_nonce m with Some _ => m | None => m <| s_nonce := Some prev |> end]> |>.
-Definition stash_code (a : addr) (prev : N) (j : jstate) : jstate :=
-  let m := mstate_for a j in
-  j <| j_muts ::= <[a := match s_code m with Some _ => m | None => m <| s_code := Some prev |> end]> |>.
+(* journal.stashBalance / stashNonce / stashCode: record prev as the pre-tx value iff
+   this is the first touch of that field (the *Set flag is the option) *)
+Definition stash_k (k : kind) (prev : N) (m : mstate) : mstate :=
+  match k with
+  | KBalance => match s_bal m with Some _ => m | None => m <| s_bal := Some prev |> end
+  | KNonce => match s_nonce m with Some _ => m | None => m <| s_nonce := Some prev |> end
+  | KCode => match s_code m with Some _ => m | None => m <| s_code := Some prev |> end
+  | _ => m
+  end.
+Definition stash (k : kind) (a : addr) (prev : N) (j : jstate) : jstate :=
+  j <| j_muts ::= <[a := stash_k k prev (mstate_for a j)]> |>.
+Definition stash_bal := stash KBalance.
+Definition stash_nonce := stash KNonce.
+Definition stash_code := stash KCode.
 
 (* journal.ripemdMagic *)
 Definition ripemd_magic (j : jstate) : jstate :=
@@ -344,6 +348,22 @@ Definition get_or_new_j (a : addr) (j : jstate) : jstate * sobj :=
   end.
 Definition put_obj (a : addr) (o : sobj) (j : jstate) : jstate := j <| j_objs ::= <[a := o]> |>.
 
+(* stateObject.SetBalance / SetNonce / SetCode: journal the previous value, then set *)
+Definition obj_set_balance (a : addr) (o : sobj) (v : word) (j : jstate) : jstate :=
+  put_obj a (o <| o_data ::= (λ d, d <| a_bal := v |>) |>) (balance_change a (a_bal (o_data o)) j).
+Definition obj_set_nonce (a : addr) (o : sobj) (n : N) (j : jstate) : jstate :=
+  put_obj a (o <| o_data ::= (λ d, d <| a_nonce := n |>) |>) (nonce_change a (a_nonce (o_data o)) j).
+Definition obj_set_code (a : addr) (o : sobj) (c : N) (j : jstate) : jstate :=
+  put_obj a (o <| o_data ::= (λ d, d <| a_code := c |>) |>) (code_change a (a_code (o_data o)) j).
+(* stateObject.SetState, when the value changes *)
+Definition obj_set_state (a : addr) (o : sobj) (k : slot) (v : word) (j : jstate) : jstate :=
+  let orig := committed j a o k in
+  let prev := get_state j a o k in
+  put_obj a (set_state k v orig o) (j_append (JStorage a k prev orig) j).
+(* StateDB.SelfDestruct, when not yet marked *)
+Definition obj_self_destruct (a : addr) (o : sobj) (j : jstate) : jstate :=
+  put_obj a (o <| o_sd := true |>) (j_append (JSelfDestruct a) j).
+
 (* StateDB.clearInternal (journal.reset + refund) *)
 Definition clear_internal (j : jstate) : jstate :=
   j <| j_entries := [] |> <| j_revs := [] |> <| j_muts := ∅ |> <| j_nextrev := 0 |> <| j_refund := 0 |>.
@@ -393,31 +413,24 @@ Definition step_j (j : jstate) (o : op) : jstate * out :=
   | OAddBalance a v =>                                                     (* StateDB.AddBalance, stateObject.AddBalance *)
       let '(j1, o) := get_or_new_j a j in
       if v =? 0 then ((if obj_empty o then touch_change a j1 else j1), RNone)
-      else let j2 := balance_change a (a_bal (o_data o)) j1 in
-           (put_obj a (o <| o_data ::= (λ d, d <| a_bal := (a_bal d + v) mod W256 |>) |>) j2, RNone)
+      else (obj_set_balance a o ((a_bal (o_data o) + v) mod W256) j1, RNone)
   | OSubBalance a v =>                                                     (* StateDB.SubBalance *)
       let '(j1, o) := get_or_new_j a j in
       if v =? 0 then (j1, RNone)
-      else let j2 := balance_change a (a_bal (o_data o)) j1 in
-           (put_obj a (o <| o_data ::= (λ d, d <| a_bal := (a_bal d + W256 - v mod W256) mod W256 |>) |>) j2, RNone)
+      else (obj_set_balance a o ((a_bal (o_data o) + W256 - v mod W256) mod W256) j1, RNone)
   | OSetBalance a v =>                                                     (* SetBalance *)
       let '(j1, o) := get_or_new_j a j in
-      let j2 := balance_change a (a_bal (o_data o)) j1 in
-      (put_obj a (o <| o_data ::= (λ d, d <| a_bal := v |>) |>) j2, RNone)
+      (obj_set_balance a o v j1, RNone)
   | OSetNonce a n =>                                                       (* SetNonce *)
       let '(j1, o) := get_or_new_j a j in
-      let j2 := nonce_change a (a_nonce (o_data o)) j1 in
-      (put_obj a (o <| o_data ::= (λ d, d <| a_nonce := n |>) |>) j2, RNone)
+      (obj_set_nonce a o n j1, RNone)
   | OSetCode a c =>                                                        (* SetCode *)
       let '(j1, o) := get_or_new_j a j in
-      let j2 := code_change a (a_code (o_data o)) j1 in
-      (put_obj a (o <| o_data ::= (λ d, d <| a_code := c |>) |>) j2, RNone)
+      (obj_set_code a o c j1, RNone)
   | OSetState a k v =>                                                     (* SetState, stateObject.SetState *)
       let '(j1, o) := get_or_new_j a j in
-      let orig := committed j1 a o k in
-      let prev := get_state j1 a o k in
-      if prev =? v then (j1, RNone)
-      else (put_obj a (set_state k v orig o) (j_append (JStorage a k prev orig) j1), RNone)
+      if get_state j1 a o k =? v then (j1, RNone)
+      else (obj_set_state a o k v j1, RNone)
   | OSetTransient a k v =>                                                 (* SetTransientState *)
       let prev := default 0 (j_tstor j !! (a, k)) in
       if prev =? v then (j, RNone)
@@ -426,14 +439,13 @@ Definition step_j (j : jstate) (o : op) : jstate * out :=
   | OSelfDestruct a =>                                                     (* SelfDestruct *)
       match j_objs j !! a with
       | None => (j, RNone)
-      | Some o => if o_sd o then (j, RNone)
-                  else (put_obj a (o <| o_sd := true |>) (j_append (JSelfDestruct a) j), RNone)
+      | Some o => if o_sd o then (j, RNone) else (obj_self_destruct a o j, RNone)
       end
   | OSelfDestruct6780 a =>                                                 (* vm.opSelfdestruct6780: IsNewContract guard *)
       match j_objs j !! a with
       | None => (j, RNone)
       | Some o => if o_new o && negb (o_sd o)
-                  then (put_obj a (o <| o_sd := true |>) (j_append (JSelfDestruct a) j), RNone)
+                  then (obj_self_destruct a o j, RNone)
                   else (j, RNone)
       end
   | OAddAddress a =>                                                       (* AddAddressToAccessList *)
